@@ -175,8 +175,34 @@ def _sext(hw, top, rng):
     return _mk(hw, top, rng, [('a', w)], [('r', rw)], lambda i, o: py4hw.SignExtend(top, 'dut', i['a'], o['r']))
 
 
+def _stim_value(rng, w):
+    """half uniform, half boundary patterns (0, 1, small, all ones, sign bit, sign bit - 1, single high bits, alternating bits): wide
+    dividers / multipliers / comparators only differ from their specification on operand pairs a uniform draw never produces"""
+    if w <= 0:
+        return 0
+    m = (1 << w) - 1
+    k = rng.randint(0, 15)
+    if k < 8:
+        return rng.bits(w)
+    if k == 8:
+        return 0
+    if k == 9:
+        return 1 & m
+    if k == 10:
+        return rng.randint(0, min(m, 15))
+    if k == 11:
+        return m
+    if k == 12:
+        return (1 << (w - 1)) & m
+    if k == 13:
+        return ((1 << (w - 1)) - 1) & m
+    if k == 14:
+        return (m - rng.randint(0, min(m, 3))) & m
+    return (0x5555555555555555555555 if rng.chance(1, 2) else 0xAAAAAAAAAAAAAAAAAAAAAA) & m
+
+
 def random_history(rng, inputs, n):
-    return [{nm: rng.bits(w.getWidth()) for nm, w in inputs.items()} for _ in range(n)]
+    return [{nm: _stim_value(rng, w.getWidth()) for nm, w in inputs.items()} for _ in range(n)]
 
 
 def _block_class():
@@ -325,6 +351,23 @@ def c07_design(rng):
     hw = py4hw.HWSystem()
     d = _top_with(hw, inw, outw, lambda top, i, o: ctor(top, i, o), f'c07:{blk}')
     d['desc'] = dict(block=blk, params=list(p), input_widths=inw, output_widths=outw)
+    d['nondet_div'] = blk in ('Div', 'Mod', 'SignedDiv')
+    return d
+
+
+def wide_design(rng):
+    """one wide arithmetic block (48..96-bit operands) inside a Top: the places where a host-language shortcut (floats, fixed-size masks)
+    stops being exact"""
+    import py4hw, c07
+    blk = rng.choice(['Div', 'Div', 'Mod', 'Mul', 'Sub', 'SignedMul', 'SignedDiv', 'Add'])
+    aw = rng.choice([48, 53, 54, 60, 64, 65, 96])
+    bw = rng.choice([aw, aw, 8, 64])
+    rw = rng.choice([aw, aw, 64, aw + bw if blk in ('Mul', 'SignedMul') else aw])
+    p = (aw, bw, rw, 0, 0, 0) if blk == 'Add' else (aw, bw, rw)
+    inw, outw, ctor = c07.block_def(blk, p)
+    hw = py4hw.HWSystem()
+    d = _top_with(hw, inw, outw, lambda top, i, o: ctor(top, i, o), f'c07:{blk}')
+    d['desc'] = dict(block=blk, params=list(p), input_widths=inw, output_widths=outw, wide=True)
     d['nondet_div'] = blk in ('Div', 'Mod', 'SignedDiv')
     return d
 
